@@ -63,6 +63,13 @@ const changelogYAML = `- semver: "1.1.0-1"
     - note: "note 3"
 `
 
+// the same with an entry that carries no date (valid for chglog; the packagers must not invent one)
+const changelogYAMLUndated = `- semver: "1.2.0"
+  packager: "No Date <nodate@example.com>"
+  changes:
+    - note: "an entry without a date"
+` + changelogYAML
+
 // ---------- generation ----------
 
 type pkgGen struct {
@@ -92,7 +99,7 @@ func (g *pkgGen) semver() string {
 }
 
 func (g *pkgGen) relations(n int) []string {
-	pool := []string{"bash", "libc6 (>= 2.17)", "foo-bar", "libfoo >= 1.2", "libfoo < 2.0", "baz = 1:2.3-4", "python3 (<< 4)", "a|b", " spaced ", "x.y+z"}
+	pool := []string{"bash", "libc6 (>= 2.17)", "foo-bar", "NetworkManager", "Foo-Tool (>= 1.0)", "libfoo >= 1.2", "libfoo < 2.0", "baz = 1:2.3-4", "python3 (<< 4)", "a|b", " spaced ", "x.y+z"}
 	var out []string
 	for i := 0; i < n; i++ {
 		out = append(out, g.pick(pool))
@@ -107,6 +114,7 @@ var descPool = []string{
 	"  leading and trailing space  \n\ttabbed\n",
 	"one\r\ntwo with CR",
 	"multi\n\n\nblank blank",
+	"two  blanks, a\ttab and a no-break\u00a0space in the synopsis\nthen   more   of  them",
 }
 
 type genEntry struct {
@@ -202,7 +210,13 @@ type genOut struct {
 }
 
 func scriptBytes(rng *rand.Rand, tag string) []byte {
-	switch rng.Intn(6) {
+	switch rng.Intn(8) {
+	case 6:
+		// saved by an editor that writes a byte order mark: the first three bytes are EF BB BF
+		return []byte("\xef\xbb\xbf#!/bin/sh\necho bom-" + tag + "\n")
+	case 7:
+		// one line longer than the 64 KiB default of line-oriented readers
+		return []byte("#!/bin/sh\n# " + strings.Repeat(tag+" ", 70000/(len(tag)+1)) + "\necho after-long-line-" + tag + "\n")
 	case 4:
 		// written on another operating system: every line, the interpreter line included, ends in CR LF
 		return []byte("#!/bin/sh\r\necho " + tag + "\r\nexit 0\r\n")
@@ -287,6 +301,11 @@ func (g *pkgGen) config(i int) genOut {
 	if g.chance(3) {
 		c.Deb.Triggers.Interest = []string{"trig-a", "trig-b"}
 		c.Deb.Triggers.ActivateNoAwait = []string{"trig-c"}
+		if g.chance(2) {
+			// the same name under more than one directive
+			c.Deb.Triggers.ActivateNoAwait = []string{"trig-c", "trig-a"}
+			c.Deb.Triggers.InterestNoAwait = []string{"trig-b", "/usr/share/trig"}
+		}
 	}
 	if g.chance(3) {
 		c.Deb.Fields = map[string]string{"Bugs": "https://example.com/bugs", "Built-Using": "go", "Empty": ""}
@@ -306,7 +325,7 @@ func (g *pkgGen) config(i int) genOut {
 	c.RPM.Group = g.pick([]string{"", "Unspecified"})
 	c.RPM.Summary = g.pick([]string{"", "explicit summary"})
 	c.RPM.Packager = g.pick([]string{"", "RPM Packager <rpm@example.com>"})
-	c.RPM.BuildHost = "buildhost.example"
+	c.RPM.BuildHost = g.pick([]string{"buildhost.example", "builder-2.example.org", "h"})
 	if g.chance(4) {
 		c.RPM.Prefixes = []string{"/opt", "/usr/local"}
 	}
@@ -338,7 +357,11 @@ func (g *pkgGen) config(i int) genOut {
 	}
 	if g.chance(5) {
 		c.Changelog = "changelog.yaml"
-		out.files = append(out.files, extraFile{Path: "changelog.yaml", Hex: hex.EncodeToString([]byte(changelogYAML)), Mode: 0o644, MTime: 1650000100})
+		body := changelogYAML
+		if g.chance(3) {
+			body = changelogYAMLUndated
+		}
+		out.files = append(out.files, extraFile{Path: "changelog.yaml", Hex: hex.EncodeToString([]byte(body)), Mode: 0o644, MTime: 1650000100})
 	}
 	return out
 }
@@ -834,6 +857,23 @@ func cacheProbes(w *caseWriter, st *pkgStats, prop string) {
 	runPkgCase(w, "probe-1", pkgDesc{YAML: doc, Files: mk("target=amd64\n", "#!/bin/sh\necho one\n", "10.conf"), Formats: allFormats}, st, nil)
 	runPkgCase(w, "probe-2", pkgDesc{YAML: doc, Files: mk("target=arm64\n", "#!/bin/sh\necho two\n", "10.conf", "20.conf"), Formats: allFormats}, st, nil)
 	runPkgCase(w, "probe-3", pkgDesc{YAML: doc, Files: mk("target=riscv\n", "#!/bin/sh\necho 3!!\n", "20.conf"), Formats: allFormats}, st, nil)
+	// a build that fails half way through the payload (a source that is longer when read than when stat'ed: the
+	// archive writers refuse the surplus), and an ordinary build after it in the same process: what the failed one
+	// left behind in pools, buffers or hashers must not reach the next package
+	cf := baseConfig("probefail")
+	cf.Contents = files.Contents{
+		{Source: "src/probe/target.txt", Destination: "/usr/share/probefail/a.txt"},
+		{Source: "/proc/version", Destination: "/usr/share/probefail/grows-while-read.txt"},
+		{Source: "src/probe/target.txt", Destination: "/usr/share/probefail/z.txt"},
+	}
+	for _, s := range slotSetters["common"] {
+		s.set(&cf, "src/probe/script.sh")
+	}
+	// (format by format, the ordinary build straight after the failed one: pooled objects do not survive many collections)
+	for _, f := range allFormats {
+		runPkgCase(w, "probe-5-fails-midway-"+f, pkgDesc{YAML: marshalConfig(&cf), Files: mk("target=fail\n", "#!/bin/sh\necho failing\n", "10.conf"), Formats: []string{f}}, st, nil)
+		runPkgCase(w, "probe-6-after-failure-"+f, pkgDesc{YAML: doc, Files: mk("target=after\n", "#!/bin/sh\necho after\n", "10.conf", "30.conf"), Formats: []string{f}}, st, nil)
+	}
 	// no package mtime: entries carry the times the file system reports, sub-second parts and all
 	// (only the package's own consistency is judged there: without a package mtime generated members carry the
 	// build time, which the payload model does not predict)
@@ -863,6 +903,9 @@ func cmdPkg(prop, tier string, seed int64, out, statsOut, replay string) {
 			n = 600
 		}
 		cacheProbes(w, st, prop)
+		if prop == "C01" || prop == "C03" || prop == "C04" || prop == "C08" {
+			genEdgeShapes(w, st)
+		}
 		switch prop {
 		case "C08":
 			genC08Matrix(w, st)
